@@ -119,6 +119,7 @@ func suiteLoops(c *Ctx) {
 	shutdownScenarios(c)
 	twoTriggerScenario(c)
 	commitPanicScenario(c)
+	staleSyncRaces(c)
 }
 
 // stressLoops: many concurrent API callers against one running MainLoop with the REAL timer-based
